@@ -345,6 +345,8 @@ func (a *AggregatePlan) Batch(ctx *ExecuteCtx) ([][]Column, error) {
 		}
 		if nrows <= restSkips {
 			a.skips += nrows
+			// the whole batch is skipped: none of its rows may be emitted
+			rows = nil
 		} else {
 			a.skips += restSkips
 			rows = rows[restSkips:]
